@@ -13,6 +13,7 @@ import (
 	"math/rand"
 	"strings"
 	"sync"
+	"sync/atomic"
 	"time"
 
 	"github.com/scrapli/scrapligo/driver/netconf"
@@ -26,12 +27,15 @@ import (
 	"verif/internal/mon"
 	"verif/internal/ncsim"
 	"verif/internal/ncwire"
+	"verif/internal/yield"
 )
 
 const (
-	shortTimeout = 150 * time.Millisecond // planned late / never
-	longTimeout  = 5 * time.Second        // planned now: a lost reply shows far from any load effect
-	lostMargin   = time.Second            // the reply must have been delivered this long before the deadline
+	forcedTimeout = 2 * time.Second // forced schedules: the hook holds the caller <= 300 ms
+	forcedHold    = 300 * time.Millisecond
+	shortTimeout  = 150 * time.Millisecond // planned late / never
+	longTimeout   = 5 * time.Second        // planned now: a lost reply shows far from any load effect
+	lostMargin    = time.Second            // the reply must have been delivered this long before the deadline
 )
 
 // ---- stall canary (process-wide freezes must not produce "lost reply" verdicts) -----------------
@@ -414,6 +418,7 @@ func RunSession(s Session) mon.Result {
 	straddleTimeoutSinceOK := false
 	curCollide := ""
 	curSlow := false
+	curForce := ""
 	lastBigSent := 0
 	bigSinceOK := false // a reply of >= bigReply bytes was put on the wire since the last verified success
 	// echoTailSharedRead: during the current call some reply began in the middle of a transport read
@@ -447,6 +452,9 @@ func RunSession(s Session) mon.Result {
 		if about && curCollide != "" && !strings.Contains(key, "body-has-") {
 			key += "+body-has-" + curCollide + "-element"
 		}
+		if about && curForce != "" && !strings.Contains(key, "forced-schedule") {
+			key += "+forced-schedule-" + curForce
+		}
 		if about && curSlow && !strings.Contains(key, "reply-raced-return-write") {
 			key += "+reply-raced-return-write"
 		}
@@ -464,11 +472,64 @@ func RunSession(s Session) mon.Result {
 
 	sc := &slowConn{Conn: conn}
 	dopts := []util.Option{options.WithCustomTransport(sc), options.WithTimeoutOps(longTimeout)}
-	if s.SlowLogUs > 0 {
+	// forced schedules (process-wide yield hook; these cases run solo)
+	var fcCur, fcWantID, fcReadTops int64 = -1, 0, 0
+	var fcArmed, fcStored int32
+	var fcForced, fcFiledWhileHeld int64
+	if s.Profile == "forced" {
+		if !yield.Available {
+			return mon.Result{Verdict: mon.Inconclusive, Detail: "yield hooks are not compiled in (build tag verif)"}
+		}
+		yield.Install(func(point string) {
+			switch point {
+			case "nc.read.top":
+				atomic.AddInt64(&fcReadTops, 1)
+			case "nc.rpc.before-wait":
+				// first arrival of the call's goroutine: request sent, no reply yet, about to wait
+				k := int(atomic.LoadInt64(&fcCur))
+				if k < 0 || !atomic.CompareAndSwapInt32(&fcArmed, 1, 0) {
+					return
+				}
+				t0 := time.Now()
+				conn.Do(func() {
+					atomic.StoreInt32(&fcStored, 0)
+					atomic.StoreInt64(&fcWantID, int64(h.recs[k].reqID))
+					h.send(conn, k) // the server's held reply to this very request goes out now
+				})
+				atomic.AddInt64(&fcForced, 1)
+				// keep the caller here until the NETCONF read loop has filed that reply (its debug line
+				// "Received message response for message ID 'N', storing", then the top of its loop
+				// once more), at most forcedHold
+				for atomic.LoadInt32(&fcStored) == 0 && time.Since(t0) < forcedHold {
+					time.Sleep(100 * time.Microsecond)
+				}
+				if atomic.LoadInt32(&fcStored) == 1 {
+					tops := atomic.LoadInt64(&fcReadTops)
+					for atomic.LoadInt64(&fcReadTops) == tops && time.Since(t0) < forcedHold {
+						time.Sleep(100 * time.Microsecond)
+					}
+					if atomic.LoadInt64(&fcReadTops) > tops {
+						atomic.AddInt64(&fcFiledWhileHeld, 1)
+					}
+				}
+			}
+		})
+		defer yield.Install(nil)
+	}
+	if s.SlowLogUs > 0 || s.Profile == "forced" {
 		li, lerr := logging.NewInstance(logging.WithLevel("debug"), logging.WithLogger(func(a ...interface{}) {
 			if len(a) == 1 {
-				if m, ok := a[0].(string); ok && strings.Contains(prefix(m, 80), "channel read") {
-					time.Sleep(time.Duration(s.SlowLogUs) * time.Microsecond)
+				if m, ok := a[0].(string); ok {
+					if s.SlowLogUs > 0 && strings.Contains(prefix(m, 80), "channel read") {
+						time.Sleep(time.Duration(s.SlowLogUs) * time.Microsecond)
+					}
+					if i := strings.Index(prefix(m, 200), "message response for message ID '"); i >= 0 {
+						var id int64
+						fmt.Sscanf(m[i+len("message response for message ID '"):], "%d", &id)
+						if id != 0 && id == atomic.LoadInt64(&fcWantID) {
+							atomic.StoreInt32(&fcStored, 1)
+						}
+					}
 				}
 			}
 		}))
@@ -525,9 +586,41 @@ func RunSession(s Session) mon.Result {
 		if call.Plan == "late" || call.Plan == "never" || call.Plan == "straddle" {
 			to = shortTimeout
 		}
+		if call.Plan == "forced" {
+			to = forcedTimeout
+		}
 		conn.Do(func() { h.cur = k; h.writesInCall = 0; genAtCallStart = conn.Generated() })
 		curCollide = call.Collide
 		curSlow = call.SlowWrite > 0
+		curForce = ""
+		var parkDone chan struct{}
+		if call.Plan == "forced" {
+			curForce = call.Force
+			if call.Force == "held" {
+				atomic.StoreInt32(&fcArmed, 1)
+				atomic.StoreInt64(&fcCur, int64(k))
+			} else {
+				// control: the caller is parked in its wait first, the reply is filed afterwards
+				parkDone = make(chan struct{})
+				go func() {
+					defer close(parkDone)
+					time.Sleep(time.Duration(call.ParkMs) * time.Millisecond)
+					for i := 0; i < 4000; i++ {
+						ok := false
+						conn.Do(func() {
+							if h.recs[k].payload != nil && h.writesInCall >= h.maxWrites {
+								h.send(conn, k)
+								ok = true
+							}
+						})
+						if ok {
+							return
+						}
+						time.Sleep(500 * time.Microsecond)
+					}
+				}()
+			}
+		}
 		sc.n, sc.slowAt, sc.delay, sc.slowEnd = 0, call.SlowWrite, time.Duration(call.SlowMs)*time.Millisecond, time.Time{}
 		start := time.Now()
 		var tailDone chan struct{}
@@ -550,6 +643,10 @@ func RunSession(s Session) mon.Result {
 		}
 		res, err := invoke(d, call, to)
 		retAt := time.Now()
+		atomic.StoreInt64(&fcCur, -1)
+		if parkDone != nil {
+			<-parkDone
+		}
 		if tailDone != nil {
 			<-tailDone
 		}
@@ -598,6 +695,9 @@ func RunSession(s Session) mon.Result {
 		}
 		if call.Release != "" {
 			desc += "/" + call.Release
+		}
+		if call.Plan == "forced" {
+			desc += "/" + call.Force
 		}
 		if call.Plan == "straddle" {
 			desc += fmt.Sprintf("(head %d%%, tail at %d ms)", call.HeadPct, call.TailAtMs)
@@ -732,7 +832,11 @@ func RunSession(s Session) mon.Result {
 				h.setOutcome(conn, k, "straddle-ok")
 				break
 			}
-			if call.Plan != "now" {
+			if call.Plan == "forced" {
+				if call.Force == "parked" {
+					obs["forced_control_reply_filed_after_caller_parked"]++
+				}
+			} else if call.Plan != "now" {
 				hist = append(hist, desc+" → RESULT")
 				return bad("c08/harness-plan", "call %d planned %s returned its own reply", k, call.Plan)
 			}
@@ -796,7 +900,7 @@ func RunSession(s Session) mon.Result {
 
 		case errors.Is(err, util.ErrTimeoutError):
 			sawTimeout = true
-			if call.Plan == "now" {
+			if call.Plan == "now" || call.Plan == "forced" {
 				hist = append(hist, desc+" → TIMEOUT")
 				if rc.reqSeen == 0 {
 					return bad("c08/request-missing", "call %d (%s) timed out and the server never saw a request for it", k, call.Kind)
@@ -817,6 +921,10 @@ func RunSession(s Session) mon.Result {
 				}
 				cause := fmt.Sprintf("%s:echo=%v:after-%s", s.Version, s.Echo, h.prevOutcome)
 				switch {
+				case curForce == "held":
+					cause = s.Version + ":forced-schedule-held:reply-filed-between-store-check-and-wait"
+				case curForce == "parked":
+					cause = s.Version + ":forced-schedule-parked:reply-filed-after-caller-parked"
 				case curSlow:
 					cause = fmt.Sprintf("%s:reply-raced-return-write:after-%s", s.Version, h.prevOutcome)
 				case bigSinceOK:
@@ -892,6 +1000,10 @@ func RunSession(s Session) mon.Result {
 		}
 		gen = conn.Generated()
 		obs["big_replies_sent"] = int64(h.bigSent)
+		if s.Profile == "forced" {
+			obs["forced_schedules"] = atomic.LoadInt64(&fcForced)
+			obs["reply_filed_while_caller_held"] = atomic.LoadInt64(&fcFiledWhileHeld)
+		}
 		obs["big_reply_followed_back_to_back_by_reply"] = int64(h.bigThenReply)
 		obs["big_reply_followed_back_to_back_by_notification"] = int64(h.bigThenNotif)
 		obs["notifications_sent"] = int64(h.notifs)
@@ -1028,6 +1140,7 @@ func init() {
 			"a straddling reply's head is sent after the call's last write and nothing else enters the stream until its tail is out; sessions with a raised read delay use whole/4096-byte reads and abandon the transport before Close (Channel.Close would wait ReadDelay^2/1000)",
 			"profile big: replies of 150-300 KiB (now, or late and released with/just before the next request) directly followed by the next reply or by a notification sent as a message of its own; read delay default..5 ms and a debug logger taking 0-3 ms per 'channel read' line, so that the NETCONF read loop runs behind the channel's",
 			"profile race: the server answers the moment the request is complete while the client's following return write blocks 50-300 ms before reaching the device (transport wrapper in this package), with and without an earlier timeout on the session",
+			"profile forced (solo cases, process-wide yield hook): the caller's goroutine is held at its first arrival at the library's yield point nc.rpc.before-wait (<= 300 ms) while the held reply to that very request is released and the NETCONF read loop files it (seen through its debug log line and the next pass of nc.read.top); control: reply released 20-80 ms after the call started",
 			"a planned-now reply is sent either the moment the request is complete (before the echo of the trailing return) or after the call's last transport write (nothing follows the reply)",
 			"the server answers with message-id=\"N\" in double quotes, N the id of the request, and replies never precede the complete request",
 			"random reply bodies and request arguments contain none of: ']]>]]>', '#', '</rpc>', 'message-id', 'subscription-id' (checked by brute force by the generator); " +
@@ -1055,6 +1168,13 @@ func init() {
 			var s Session
 			c.Decode(&s)
 			return RunSession(s)
+		},
+		Solo: func(c mon.Case) bool {
+			var s struct {
+				Profile string `json:"profile"`
+			}
+			c.Decode(&s)
+			return s.Profile == "forced" // installs the process-wide yield hook
 		},
 		Workers:     func(string) int { return 6 },
 		Parallel:    func(string) int { return 4 },
